@@ -262,9 +262,33 @@ func (p *Program) VerifyLemma(fc *FuncContract) (res *FuncResult) {
 		ri.names = append(ri.names, prm.Name)
 	}
 	x.rootInfo = ri
-	ce := &CEnv{x: x, st: st, old: st, vars: vars, guard: x.b.True, fc: fc, pkg: pkg}
-	x.evalLets(ce, fc)
+	ce := &CEnv{x: x, st: st, old: st.clone(), vars: vars, guard: x.b.True, fc: fc, pkg: pkg}
+	// hypotheses speak about the state before any (ghost-executed) let; a
+	// hypothesis that mentions a let-bound name is evaluated after the lets
+	var late []*Clause
 	for _, r := range fc.Requires {
+		var t *smt.Term
+		func() {
+			defer func() {
+				if rec := recover(); rec != nil {
+					if _, ok := rec.(evalErr); ok {
+						t = nil
+						return
+					}
+					panic(rec)
+				}
+			}()
+			pre := &CEnv{x: x, st: st.clone(), old: ce.old, vars: vars, guard: x.b.True, fc: fc, pkg: pkg}
+			t = x.evalBool(pre, r)
+		}()
+		if t == nil {
+			late = append(late, r)
+			continue
+		}
+		x.axiom(t)
+	}
+	x.evalLets(ce, fc)
+	for _, r := range late {
 		x.axiom(x.evalBool(ce, r))
 	}
 	x.applyUses(ce, fc)
